@@ -111,6 +111,7 @@ def _dump_result(status):
         "cur_op": S.cur_op,
         "harness": S.harness_notes,
         "impl": getattr(S, "impl", {}),
+        "xdev_hits": getattr(S, "xdev_hits", 0),
     }
     data = json.dumps(doc).encode("utf-8")
     fd = S.os_open(os.path.join(S.root, "result.json"), os.O_WRONLY | os.O_CREAT | os.O_TRUNC, 0o644)
@@ -459,6 +460,27 @@ def _install_world(world):
     tempfile.tempdir = S.tmp
     os.environ["TMPDIR"] = S.tmp
 
+    if world.get("xdev"):
+        # the temp directory and the documents live on different file systems
+        # (tmpfs /tmp is the common deployment): renames and hard links across
+        # the boundary fail with EXDEV, exactly as the kernel reports it
+        real_rename, real_replace, real_link = os.rename, os.replace, os.link
+
+        def _device(path):
+            pclass, _shown = _classify(path)
+            return "tmp" if pclass == "tmp" else "work" if pclass in ("target", "work-new", "work-dir") else "other"
+
+        def _guard(real):
+            def guarded(src, dst, *args, **kwargs):
+                if isinstance(src, (str, bytes, os.PathLike)) and isinstance(dst, (str, bytes, os.PathLike)) and _device(src) != _device(dst):
+                    S.xdev_hits += 1
+                    raise OSError(errno.EXDEV, os.strerror(errno.EXDEV), _fs_str(src), None, _fs_str(dst))
+                return real(src, dst, *args, **kwargs)
+
+            return guarded
+
+        os.rename, os.replace, os.link = _guard(real_rename), _guard(real_replace), _guard(real_link)
+
     chunk = world.get("copy_chunk")
     if chunk:
 
@@ -742,6 +764,7 @@ def _child(request, root):
     S.counts, S.steps, S.cur_op, S.curfile = {}, 0, 0, None
     S.last_copy, S.outside_reads, S.stdin_reads, S.in_parse = {}, 0, 0, 0
     S.api, S.plugins_seen, S.impl = None, [], {}
+    S.xdev_hits = 0
     _write_tree(request)
     os.chdir(S.work)
     _install_world(request.get("world") or {})
